@@ -159,9 +159,18 @@ def compositions(d, max_blocks=4):
 
 def gen_instance(rng, *, d=None, k=None, N=None, vtype="sympy", fdkind=None,
                  sizes=None, complex_=None, shuffle=True, hermitian=True, complex_E=False, basis=None,
-                 hermitian_terms=None):
+                 hermitian_terms=None, corner=None):
     """Draw one well-posed instance.  Dyadic energies for float value types."""
     dyadic = vtype in ("numpy", "sparse", "numpy_complex")
+    if corner == "zero_block":
+        # corner stratum: the LAST block sits at zero unperturbed energy (size >= 2) and an
+        # earlier block of size >= 2 is non-degenerate
+        d = d if d and d >= 4 else rng.choice([4, 5])
+        # dyadic instances have only three levels {0, 1, 2}: two blocks
+        sizes = rng.choice([[2, 2], [3, 2], [2, 3]] if dyadic else [[2, 2], [2, 1, 2], [3, 2], [2, 3]])
+        sizes = [x for x in sizes]
+        d = sum(sizes)
+        shuffle = False
     d = d or rng.choice([2, 3, 3, 4, 4, 5])
     # energies of different blocks must differ; the dyadic family has 3 levels
     sizes = sizes or rng.choice([c for c in compositions(d) if len(c) <= ((4 if complex_E else 3) if dyadic else 4)])
@@ -209,6 +218,14 @@ def gen_instance(rng, *, d=None, k=None, N=None, vtype="sympy", fdkind=None,
         cuts = sorted(rng.sample(range(1, len(pool)), nb - 1)) if nb > 1 else []
         groups = [pool[a:b] for a, b in zip([0, *cuts], [*cuts, len(pool)])]
         E = [rng.choice(groups[sub_idx[i]]) for i in range(d)]
+        zero_e = (Fraction(0), Fraction(0)) if complex_E else Fraction(0)
+        if rng.random() < 0.3 and all(zero_e not in g for g in groups):
+            # a whole block at zero unperturbed energy (the library then stores the `zero`
+            # sentinel for that block of H_0): only if no other block uses the level 0
+            zb = nb - 1 if rng.random() < 0.6 else rng.randrange(nb)
+            if not dyadic or all(abs(complex(*epair(x)) if isinstance(x, tuple) else x) in (1, 2, 4, 8, 16)
+                                 for g in groups for x in g if g is not groups[zb]):
+                E = [zero_e if sub_idx[i] == zb else E[i] for i in range(d)]
         masks = {}
         if fdkind in ("dict", "array"):
             for b in fd_blocks:
@@ -254,6 +271,23 @@ def gen_instance(rng, *, d=None, k=None, N=None, vtype="sympy", fdkind=None,
         terms[first[0]] = gen(rng, d, complex_=complex_, dens=dens, amp=2, fill=1.0)
     inst["terms"] = terms
     inst["complex"] = complex_
+    if corner == "zero_block":
+        first = [i for i in range(d) if sub_idx[i] == 0]
+        last = [i for i in range(d) if sub_idx[i] == nb - 1]
+        lv = [Fraction(1), Fraction(2)] if dyadic else [Fraction(1), Fraction(3)]
+        E2 = list(inst["E"])
+        for q, i in enumerate(first):
+            E2[i] = lv[q % 2]
+        for i in last:
+            E2[i] = Fraction(0)
+        for i in range(d):
+            if sub_idx[i] not in (0, nb - 1):
+                E2[i] = Fraction(4) if dyadic else Fraction(-2)
+        inst["E"] = E2
+        if inst["fdkind"] in ("dict", "array"):
+            inst["fdkind"], inst["fd_blocks"], inst["masks"] = "none", [], {}
+        if not well_posed(inst):
+            raise Regenerate("corner instance ill posed")
     inst["basis"] = None
     if basis == "pairs":
         M, Mi = unimodular_pair(rng, d, complex_)
@@ -401,6 +435,9 @@ def present(inst):
     k = inst["k"]
     ident_map = list(range(k))
     first_only = all(sum(n) <= 1 for n in H)
+    if fmt == "analytic":
+        total, syms = inst["_analytic"]
+        return total, dict(symbols=syms), ident_map
     if fmt == "list" and first_only:
         zero_like = H[(0,) * k] * 0
         return [H[(0,) * k]] + [H.get(tuple(int(i == j) for i in range(k)), zero_like) for j in range(k)], {}, ident_map
